@@ -57,6 +57,9 @@ JOBS = {'quick': 4, 'thorough': 16}
 
 ALPHABET = ['%', '+', '0', '9', 'A', 'F', 'a', 'f', 'g', '/', '?', '-', '~', ' ', '\x00', 'é', '€', '\U0001F600']
 
+# first / last code point of every UTF-8 length class, both sides of the surrogate gap, U+FFFD itself
+BOUNDARY = ['\x7f', '\x80', '\u07ff', '\u0800', '\ud7ff', '\ue000', '\ufffd', '\uffff', '\U00010000', '\U0010ffff']
+
 # RFC 3986 section 2.2 / 2.3, typed out here (NOT imported from falcon)
 RFC_UNRESERVED = 'ABCDEFGHIJKLMNOPQRSTUVWXYZabcdefghijklmnopqrstuvwxyz0123456789-._~'
 RFC_GEN_DELIMS = ':/?#[]@'
@@ -126,13 +129,18 @@ def run(ctx):
 
     def one_string(s, kind):
         h = hx(s.encode('utf-8'))
+        c = cps(s)
         sess.case({'kind': kind, 'len': len(s)})
         changed = False
+        # ---- str <-> bytes: CPython's str.encode() = U8.encode, and bytes.decode('utf-8','replace') inverts it (decodeReplace_encode)
+        sess.op(f'u8enc {c}', h)
+        sess.op(f'roundtrip {c}', cps(s.encode('utf-8').decode('utf-8', 'replace')))
         # ---- decode
         bad = None
         for plus in (True, False):
             d = call(uri.decode, s, unquote_plus=plus) if not plus else call(uri.decode, s)
             sess.op(f'decode {1 if plus else 0} {h}', cps(d) if isinstance(d, str) else 'EXC:' + type(d).__name__)
+            sess.op(f'sdecode {1 if plus else 0} {c}', cps(d) if isinstance(d, str) else 'EXC:' + type(d).__name__)   # str-level model (Us.decode)
             if not isinstance(d, str):
                 bad = bad or f'decode(unquote_plus={plus}) raised {type(d).__name__}: {d}'
                 continue
@@ -149,6 +157,7 @@ def run(ctx):
         for k, f, isval in ENC:
             e = call(f, s)
             sess.op(f'enc {k} {h}', hx(e.encode('utf-8')) if isinstance(e, str) else 'EXC:' + type(e).__name__)
+            sess.op(f'senc {k} {c}', cps(e) if isinstance(e, str) else 'EXC:' + type(e).__name__)                     # str-level model (Us.encode*)
             if not isinstance(e, str):
                 bad = bad or f'{f.__name__} raised {type(e).__name__}: {e}'
                 continue
@@ -160,10 +169,12 @@ def run(ctx):
             if isval:
                 for plus in (True, False):
                     d = call(uri.decode, e, unquote_plus=plus)
+                    sess.op(f'srt 1 {1 if plus else 0} {c}', cps(d) if isinstance(d, str) else 'EXC:' + type(d).__name__)
                     if d != s:
                         badrt = badrt or f'decode(encode_value(s), unquote_plus={plus}) = {str(d)[:80]!r} != s'
             else:
                 d = call(uri.decode, e, unquote_plus=False)
+                sess.op(f'srt 0 0 {c}', cps(d) if isinstance(d, str) else 'EXC:' + type(d).__name__)
                 if d != s:
                     badrt = badrt or f'decode(encode(s), unquote_plus=False) = {str(d)[:80]!r} != s'
         ctx.oracle('encode / encode_value == RFC 3986 reference encoder: allowed characters verbatim, upper-case %XX of the UTF-8 bytes otherwise',
@@ -201,6 +212,33 @@ def run(ctx):
                 one_string(''.join(tup), 'exhaustive')
                 ctx.count(f'exhaustive_len_{n}')
             idx += 1
+
+    # ---------------- 1b. the boundaries of the four UTF-8 length classes and of the surrogate gap, alone, in pairs, and next to % / + / an escape
+    for a in [''] + BOUNDARY:
+        for b in [''] + BOUNDARY + ['%', '+', '%41', '%C3%A9', '%ED%A0%80']:
+            for t in sorted({a + b, b + a}):
+                if idx % k == i:
+                    one_string(t, 'boundary')
+                    ctx.count('boundary')
+                idx += 1
+    # str.encode() alone on the whole code-point range (the model of UnicodeEncodeError included: a lone surrogate is refused)
+    for _ in range(ctx.n(1500, 15000)):
+        r = rnd.random()
+        pts = [rnd.choice([0x7f, 0x80, 0x7ff, 0x800, 0xfff, 0x1000, 0xcfff, 0xd000, 0xd7ff, 0xe000, 0xffff, 0x10000, 0x3ffff, 0x40000, 0xfffff, 0x100000, 0x10ffff])
+               + rnd.choice([0, 0, 0, -1, 1]) if rnd.random() < 0.5 else
+               rnd.randrange(0x80) if rnd.random() < 0.2 else rnd.randrange(0x110000) for _ in range(rnd.randint(1, 6))]
+        pts = [min(max(x, 0), 0x10ffff) for x in pts]
+        if r < 0.1:
+            pts[rnd.randrange(len(pts))] = rnd.choice([0xd800, 0xdbff, 0xdc00, 0xdfff, rnd.randrange(0xd800, 0xe000)])
+        t = ''.join(map(chr, pts))
+        got = call(t.encode, 'utf-8')
+        sess.case({'kind': 'str.encode', 'len': len(t)})
+        sess.op(f'u8enc {cps(t)}', hx(got) if isinstance(got, bytes) else 'EXC:' + type(got).__name__)
+        if isinstance(got, bytes):
+            sess.op(f'roundtrip {cps(t)}', cps(got.decode('utf-8', 'replace')))
+            if rnd.random() < 0.3:
+                one_string(t, 'codepoints')
+        ctx.count('str_encode_' + ('surrogate' if not isinstance(got, bytes) else 'scalars'))
 
     # ---------------- 2. random strings, up to several KB, crossing the 8-token switch
     WELL = ['%41', '%7e', '%2B', '%25', '%00', '%20', '%2f', '%C3%A9', '%c3%a9', '%E2%82%AC', '%F0%9F%98%80',
@@ -255,6 +293,12 @@ def run(ctx):
             g.insert(rnd.randrange(len(g) + 1), '')
         return ':'.join(g)
 
+    def shost(a, g):
+        if isinstance(g, tuple):
+            sess.op('shost ' + cps(a), cps(g[0]) + ' ' + ('default' if g[1] is None else str(g[1])))
+        else:
+            sess.op('shost ' + cps(a), '<ValueError>' if isinstance(g, ValueError) else 'EXC:' + type(g).__name__)
+
     for _ in range(ctx.n(3000, 30000)):
         form = rnd.choice(['reg', 'reg', 'v4', 'v6', 'v6'])
         hostpart = reg_name() if form == 'reg' else ipv4() if form == 'v4' else '[' + ip_literal() + ']'
@@ -287,6 +331,18 @@ def run(ctx):
                 sess.op('host ' + hx(a.encode()), '<ValueError>' if isinstance(g, ValueError) else 'EXC:' + type(g).__name__)
             else:
                 sess.op('host ' + hx(a.encode()), exp)
+            shost(a, g)
+        # str-level model only: the same authority with non-ASCII characters put in (slices and rfind count characters, not bytes)
+        a = auth
+        for _ in range(rnd.randint(1, 2)):
+            j = rnd.randrange(len(a) + 1)
+            a = a[:j] + rnd.choice(['é', '€', '\U0001F600', '\x80', '\uffff']) + a[j + rnd.choice([0, 0, 1]):]
+        if rnd.random() < 0.3:
+            a = _mutate(rnd, a)
+        if not any(ch in a for ch in '+-_'):
+            sess.case({'kind': 'parse_host_str', 'authority': a})
+            shost(a, call(uri.parse_host, a))
+            ctx.count('authority_non_ascii')
 
     # ---------------- 4. unquote_string (oracle only)
     for _ in range(ctx.n(2000, 20000)):
